@@ -305,10 +305,66 @@ def subsets(rng, tier):
     return ok
 
 
+def help_on_every_path(sh, env, tree, rng, shape):
+    for path, n in T.walk(tree):
+        if n["kind"] == "anon" or any(x["kind"] == "anon" for x in path):
+            continue
+        names = [rng.choice([x["name"]] + x["aliases"]) for x in path]
+        sw = rng.choice(SW["help"])
+        extra = rng.choice([[], ["-q"][:0], ["--no-ansi"], ["-v"]])
+        tokens = names + [sw] + extra if rng.random() < 0.5 else names + extra + [sw]
+        record = {"tree": tree, "tokens": tokens, "kind": "help-on-path"}
+        sh.case(("help-path", tuple(x["kind"] for x in path), bool(n["subs"]), sw, tuple(extra), shape), True)
+        r, app = execute(env, tree, tokens, "write", (False, False))
+        sh.count("help_path_runs")
+        if r["status"] != 0 or r["calls"]:
+            sh.violate("help", record, "'%s' gave status %r with %d handler call(s): %r" % (" ".join(tokens), r["status"], len(r["calls"]), (r["out"] + r["err"])[:160]))
+            continue
+        targets = [path] + [path + (s,) for s in n["subs"] if s["kind"] in ("default", "anon")]
+        pages = []
+        for tp in targets:
+            io = env.BufferedIO("", env.PlainFormatter())
+            io.set_terminal_dimensions(env.Rectangle(int(os.environ["COLUMNS"]), int(os.environ["LINES"])))
+            env.CommandHelp(T.find_command(app, [x["name"] for x in tp])).render(io)
+            pages.append(io.fetch_output())
+        if r["out"] not in pages:
+            sh.violate("help", record, "'%s' did not print that command's help page: %r" % (" ".join(tokens), r["out"][:100]))
+
+
+def ansi_switches_after_each_other(sh, env, tree, rng, shape):
+    """The no-ANSI switch removes every escape sequence also when an earlier run of the process was decorated
+    (error reports at debug verbosity included), and vice versa."""
+    lines = base_lines(tree, rng, 1)
+    if not lines:
+        return
+    path, names, base = lines[0]
+    for first, second in ((["--ansi", "-vvv"], ["--no-ansi", "-vvv"]), (["--no-ansi", "-vvv"], ["--ansi", "-vvv"])):
+        results = []
+        for sw in (first, second):
+            r, _ = execute(env, tree, base + sw, "raise", (True, True))
+            results.append(r)
+        record = {"tree": tree, "kind": "ansi-sequence", "first": base + first, "second": base + second}
+        sh.case(("ansi-sequence", tuple(first), shape), True)
+        sh.count("ansi_sequence_runs")
+        plain = results[0] if "--no-ansi" in first else results[1]
+        deco = results[1] if "--no-ansi" in first else results[0]
+        if "\x1b" in plain["out"] + plain["err"]:
+            sh.violate("no-ansi", record, "the --no-ansi run (%s of the two) emitted an escape sequence: %r" % ("first" if plain is results[0] else "second",
+                       [l for l in (plain["out"] + plain["err"]).split("\n") if "\x1b" in l][:2]))
+        # the decorated error report styles every code line of the snippets
+        def undecorated_code_lines(text):
+            return [l for l in text.split("\n") if ("\u2502" in l or "|" in l) and "\x1b" not in l and l.strip()]
+        bad = undecorated_code_lines(deco["out"] + deco["err"])
+        if bad and "\x1b" in deco["out"] + deco["err"]:
+            sh.violate("ansi", record, "the --ansi run printed undecorated snippet lines: %r" % bad[:2])
+
+
 def run_tree(sh, env, tree, rng, tier):
     os.environ["COLUMNS"] = "120"
     os.environ["LINES"] = "40"
     shape = T.tree_shape(tree)
+    help_on_every_path(sh, env, tree, rng, shape)
+    ansi_switches_after_each_other(sh, env, tree, rng, shape)
     for path, names, base in base_lines(tree, rng, 4 if tier == "quick" else 6):
         for kind in ("write", "ask", "raise"):
             ansi_streams = (rng.random() < 0.5, rng.random() < 0.5)
@@ -389,7 +445,7 @@ def run(sh, spec):
 def finalize(tier, merged):
     c = merged["counters"]
     inc = []
-    for k in ("variant_runs", "control_runs", "handler_level_checks", "help_checks", "version_checks"):
+    for k in ("variant_runs", "control_runs", "handler_level_checks", "help_checks", "version_checks", "help_path_runs", "ansi_sequence_runs"):
         if not c.get(k):
             inc.append("counter %s is zero" % k)
     return {"inconclusive": inc}
